@@ -354,6 +354,9 @@ func (r *Runner) reset(a map[string]string) string {
 		KeepEventsForHeights: &keep,
 		ExtraValidators:      atoi(a["extra"]),
 	}
+	if g, ok := a["gh"]; ok {
+		cfg.GenesisHeight = uint32(atoi(g))
+	}
 	n, err := node.New(cfg)
 	if err != nil {
 		return "reset-failed " + err.Error()
